@@ -13,6 +13,16 @@ CLAIMED = {
   note="One inductive step from arbitrary operands satisfying the representation invariant covers expression trees of any depth. Bounds: universe of 3 base units (thorough 4), |exponent| <= 2^31 per operand (larger exponents overflow i64 in dev builds: outside the claim), root degree 2..4. OUTSIDE: the 4000-name database (units enter as arbitrary exponent vectors), rendering.",
   technique="symbolic execution of rustc MIR + z3, BTreeMap as symbolic-presence association list",
   ref="DESIGN.md §5 C02"),
+ 'C09': dict(
+  text="Symbolic execution of the real MIR of `to_list` and `Numeric::div_rem`: the value (unbounded Real), the unit values of a list of 2..3 (thorough 4) entries (arbitrary positive Reals) and all unit exponent vectors are symbolic; z3 decides for every value at once that the parts sum to the value exactly, every part but the last is an integer, each remainder is smaller than the unit just used, all parts share the value's sign, and that non-conformable lists/values are refused (Generic vs Conformance). The automatic duration breakdown is the 6-entry instance with the constants read from the loaded database at run time.",
+  note="Stubs (nondeterministic summaries listed in evidence): Context::lookup -> harness unit table, Number::to_parts -> raw value only, canonicalize, conformance_err, Show::show. Assumes unit values > 0. OUTSIDE: parse_unitlist (token scanner), rendering of the parts, list lengths > 4 (6 for the fixed duration list).",
+  technique="symbolic execution of rustc MIR + z3 (mixed integer/real arithmetic)",
+  ref="DESIGN.md §5 C09"),
+ 'C14': dict(
+  text="Symbolic execution of the real MIR of to_duration, from_duration, the DateTime arms of Value +/- and the Conversion::Offset arm of eval_query (with parse_offset on symbolic digit strings): durations are written (k+e)/10^9 s with k an unbounded Int and 0<=e<1, instants are Ints; z3 decides (d+t)-d = t and (d-t)+t = d for every whole-nanosecond t and every instant in range, truncation toward zero otherwise, refusal (never a panic) outside the documented range, that re-zoning keeps the instant and that offsets beyond +-24 h are refused.",
+  note="chrono is replaced by its documented contract (TimeDelta = Int ns within +-i64::MAX ms with its documented panics; DateTime = (instant, zone) within an abstract interval [DT_MIN, DT_MAX] that contains +-10^18 ns; FixedOffset::east_opt is Some iff |s| < 86400). Stubs: eval_expr -> arbitrary DateTime, DateReply::new -> record, Show::show. OUTSIDE: the pattern-driven date parser, named-zone tables (chrono-tz), calendar correctness of chrono itself.",
+  technique="symbolic execution of rustc MIR + z3, library contracts for chrono",
+  ref="DESIGN.md §5 C14"),
  'C19': dict(
   text="Kani/CBMC on the real sandbox/src/alloc.rs (included by #[path]): all histories of 2..3 (thorough 4) operations over {alloc, alloc_zeroed, realloc, dealloc} with symbolic sizes, limit and slot choice are decided in one SAT query each against a ghost model (usage = sum of live sizes, success => within limit, refusal => block intact and usage unchanged, peak >= largest usage). Counterexamples are replayed natively from Kani's concrete values.",
   note="Trusted: CBMC's malloc/realloc model stands for System and never fails; unwinding assertions on. Bounds: <= 4 operations, 2 live blocks, limit <= 2^16 (anylimit harnesses: usize::MAX/4), single thread. OUTSIDE: concurrency (see mirsym part when present), weak memory, >4 operations.",
@@ -32,7 +42,7 @@ NA = {
 
 PENDING = {
  'C03': 'not built yet', 'C04': 'not built yet', 'C05': 'not built yet', 'C06': 'not built yet', 'C07': 'not built yet',
- 'C09': 'not built yet', 'C10': 'not built yet', 'C14': 'not built yet', 'C15': 'not built yet', 'C16': 'not built yet',
+ 'C10': 'not built yet', 'C15': 'not built yet', 'C16': 'not built yet',
 }
 
 
